@@ -64,6 +64,7 @@ func init() {
 	register("rl", "c19h", true, func(t *testing.T, r *sim.Run) { inBubble(t, true, func() { rl.RunC19H(r) }) })
 	register("rl", "c16l", true, func(t *testing.T, r *sim.Run) { inBubble(t, true, func() { rl.RunC16L(r) }) })
 	register("rl", "c08tb", true, func(t *testing.T, r *sim.Run) { inBubble(t, true, func() { rl.RunC08TB(r) }) })
+	register("rl", "c18o", true, func(t *testing.T, r *sim.Run) { inBubble(t, true, func() { rl.RunC18O(r) }) })
 	register("rl", "c13i", true, func(t *testing.T, r *sim.Run) { inBubble(t, true, func() { rl.RunC13I(r) }) })
 	register("rl", "c07h", true, func(t *testing.T, r *sim.Run) { inBubble(t, true, func() { rl.RunC07H(r) }) })
 	register("rl", "c07o", true, func(t *testing.T, r *sim.Run) { inBubble(t, true, func() { rl.RunC07Overlap(r) }) })
